@@ -6,9 +6,7 @@ mkdir -p "$B/setup"
 (cd "$V/sim" && go build -modfile="$B/harness.mod" -o "$B/setup/vcheck" ./cmd/vcheck) || infra "vcheck build failed"
 (cd "$V/sim" && CGO_ENABLED=1 go build -race -modfile="$B/harness.mod" -o "$B/setup/vcheck-race" ./cmd/vcheck) || infra "vcheck -race build failed"
 build_mapsim "$B/setup/mapsim"
-(cd "$V/sim" && go1.26.8 test -c -modfile="$B/harness.mod" -o "$B/setup/livesim.test" ./livesim) || infra "livesim build failed"
-(cd "$V/sim" && CGO_ENABLED=1 go1.26.8 test -c -race -modfile="$B/harness.mod" -o "$B/setup/livesim-race26.test" ./livesim) || infra "livesim -race (go1.26.8) build failed"
-(cd "$V/sim" && CGO_ENABLED=1 go test -c -race -modfile="$B/harness.mod" -o "$B/setup/livesim-race23.test" ./livesim) || infra "livesim -race (go1.23) build failed"
+VERIF_BUILD_ONLY=1 "$V/stages/C20.sh" quick || infra "livesim builds failed"
 (cd "$REPO" && go build -o "$B/setup/pp" ./cmd/pp) || infra "pp build failed"
 rm -rf "$B/setup"
 exit 0
